@@ -6,6 +6,7 @@ cd /repo || exit 2
 git diff --quiet || { echo "/repo dirty"; exit 2; }
 git apply "$P" || { echo "patch does not apply"; exit 2; }
 cd /verif
+export VERIF_EVIDENCE_DIR=/verif/.cache/seed-evidence; mkdir -p $VERIF_EVIDENCE_DIR   # never overwrite the evidence of the unchanged tree
 ./check "$ID" --tier "$TIER" 2>&1 | grep -E "VIOLATION|KNOWN|BUILD-ERROR|^C[0-9]+ " | cut -c1-300
 rc=${PIPESTATUS[0]}
 git -C /repo checkout -- .
